@@ -1,6 +1,6 @@
 # Reproduces the soundness bug reported in lean/STATUS.md: _ax_mm is defined twice in pyvc/theory.py, so two
 # remainders x % pow2(a), x % pow2(b) get the PRODUCT schemas MM.lt/gt/eq, which are false for them.
-# Run: python3-vt lean/repro_mm_shadow.py   (expects "unsat" twice while the bug is present)
+# Run: python3-vt lean/repro_mm_shadow.py   ("unsat" twice while the bug is present; "sat" twice after the fix b15ccef)
 import sys
 import os; sys.path.insert(0, os.path.join(os.path.dirname(os.path.abspath(__file__)), '..'))
 import z3
